@@ -17,6 +17,7 @@
 #include <atomic>
 #include <condition_variable>
 #include <cstdint>
+#include <deque>
 #include <exception>
 #include <iostream>
 #include <memory>
@@ -277,6 +278,8 @@ namespace bloch::runtime {
         // A runtime error raised by a user destructor cannot leave the shared_ptr deleter that
         // runs it; it is kept here and reported at the next statement boundary.
         std::exception_ptr m_pendingDestructorError;
+        int m_releaseDepth = 0;  // nested object releases in progress
+        std::deque<Object*> m_deferredReleases;
         int m_destructorDepth = 0;  // user destructor bodies currently running (they nest)
         std::unordered_map<const Expression*, std::vector<int>> m_measurements;
         std::unordered_map<std::string, std::unordered_map<std::string, int>> m_trackedCounts;
@@ -366,6 +369,7 @@ namespace bloch::runtime {
         void markValue(const Value& v);
         void markObject(const std::shared_ptr<Object>& obj);
         void destroyObject(Object* obj, bool runUserDestructor);
+        void releaseObject(Object* obj);
         Value callMethod(RuntimeMethod* method, RuntimeClass* staticDispatchClass,
                          const std::shared_ptr<Object>& receiver, const std::vector<Value>& args);
         void runConstructorChain(RuntimeClass* cls, const std::shared_ptr<Object>& obj,
